@@ -317,3 +317,186 @@ Print Assumptions C03_real_backends_are_lane.
 Print Assumptions C03_jh_swapk_is_lane_swap.
 Print Assumptions C03_jh_lane_is_model.
 Print Assumptions C03_real_backends_e8_is_model.
+
+(** (f) the WHOLE block functions over the extended machine record (work package machine-framing):
+    framing code included — storage conversions, byte output, lane access, the u64 counter views,
+    transpose4. [xmachine_refines m]: [machine_refines] of the base plus the lane meaning of every
+    extra operation (Model/MachineFull.v). *)
+From CC Require Import Lib.Bytes Model.MachineFull.
+From CC Require Proofs.MachineFullSse Proofs.MachineFullAvx2 Proofs.MachineFullGeneric.
+From CC Require Import Proofs.MachineFullLib Proofs.MachineFullChaCha Proofs.MachineFullJH Proofs.MachineFullBlake
+  Proofs.MachineFullReal.
+
+Theorem C03_lane_xm_refines : xmachine_refines lane_xm.
+Proof. exact lane_xm_refines. Qed.
+
+(** ChaCha: [refill_narrow] (rounds on [m1] under dispatch!, output and counter on [m2] under
+    dispatch_light128!) and [refill_wide] on refining back ends = on the lane instance, for every
+    number of double rounds and every well-formed store *)
+Theorem C03_chacha_refill_narrow_machine_indep :
+  forall m1 m2, xmachine_refines m1 -> xmachine_refines m2 ->
+  forall k s, cstore_ok s -> x_refill_narrow m1 m2 k s = x_refill_narrow lane_xm lane_xm k s.
+Proof. exact refill_narrow_machine_indep. Qed.
+
+Theorem C03_chacha_refill_wide_machine_indep :
+  forall m, xmachine_refines m ->
+  forall k s, cstore_ok s -> xm_refill_wide m k s = xm_refill_wide lane_xm k s.
+Proof. exact refill_wide_machine_indep. Qed.
+
+(** and the lane instance is the executable model of Model/ChaChaGuts.v (output bytes and next state) *)
+Theorem C03_chacha_refill_lane_is_model :
+  forall k c, chacha_ok c ->
+    x_refill_narrow lane_xm lane_xm k (store_of c) =
+      (fst (ChaChaGuts.refill c k), store_of (snd (ChaChaGuts.refill c k))) /\
+    xm_refill_wide lane_xm k (store_of c) =
+      (fst (ChaChaGuts.refill_wide c k), store_of (snd (ChaChaGuts.refill_wide c k))).
+Proof. intros k c H. exact (conj (lane_refill_narrow_is_model k c H) (lane_refill_wide_is_model k c H)). Qed.
+
+(** XChaCha set-up [init_chacha_x] (HChaCha through [refill_narrow_rounds]; [read_le]) and
+    [pos64] / [seek64] / [seek32] ([extract] / [insert]) on refining back ends are the model's *)
+Theorem C03_chacha_init_x_seek_is_model :
+  (forall m1 m2, xmachine_refines m1 -> xmachine_refines m2 ->
+   forall key nonce k, bytes_ok 32 key -> bytes_ok 24 nonce ->
+     x_init_chacha_x m1 m2 key nonce k = store_of (ChaChaGuts.init_chacha_x key nonce k)) /\
+  (forall m, xmachine_refines m -> forall s, cstore_ok s ->
+     x_pos64 _ (xm_n m) s = ChaChaGuts.pos64 (cc_of s) /\
+     (forall c, x_seek64 _ (xm_n m) s c = store_of (ChaChaGuts.seek64 (cc_of s) c)) /\
+     (forall c, c < 2 ^ 32 -> x_seek32 _ (xm_n m) s c = store_of (ChaChaGuts.seek32 (cc_of s) c))).
+Proof. exact (conj init_chacha_x_is_model seek_is_model). Qed.
+
+(** JH: F8 (load/xor framing + E8 + store) *)
+Theorem C03_jh_f8_machine_indep :
+  forall m, xmachine_refines m ->
+  forall state data, bytes_ok 128 state -> bytes_ok 64 data ->
+    xm_f8 m e8_sched state data = xm_f8 lane_xm e8_sched state data.
+Proof. exact f8_machine_indep. Qed.
+
+Theorem C03_jh_f8_is_model :
+  forall m, xmachine_refines m ->
+  forall state data, bytes_ok 128 state -> bytes_ok 64 data ->
+    xm_f8 m e8_sched state data = JH.m_f8 state data.
+Proof. exact f8_is_model. Qed.
+
+(** BLAKE: [put_block] of both word sizes and [finalize] *)
+Theorem C03_blake_put_block_machine_indep :
+  forall m, xmachine_refines m ->
+  (forall h block t0 t1, bytes_ok 16 (fst h) -> bytes_ok 16 (snd h) -> Forall is_byte block ->
+     t0 < 2 ^ 32 -> t1 < 2 ^ 32 ->
+     xm_put_block32 m h block (t0, t1) = xm_put_block32 lane_xm h block (t0, t1)) /\
+  (forall h block t0 t1, bytes_ok 32 (fst h) -> bytes_ok 32 (snd h) -> Forall is_byte block ->
+     t0 < 2 ^ 64 -> t1 < 2 ^ 64 ->
+     xm_put_block64 m h block (t0, t1) = xm_put_block64 lane_xm h block (t0, t1)).
+Proof. intros m X. exact (conj (put_block32_machine_indep m X) (put_block64_machine_indep m X)). Qed.
+
+Theorem C03_blake_put_block_is_model :
+  forall m, xmachine_refines m ->
+  (forall h block t0 t1, bytes_ok 16 (fst h) -> bytes_ok 16 (snd h) -> Forall is_byte block ->
+     t0 < 2 ^ 32 -> t1 < 2 ^ 32 ->
+     xm_put_block32 m h block (t0, t1) = h_bytes 4 (Blake.put_block32 (h_words 4 h) block (t0, t1))) /\
+  (forall h block t0 t1, bytes_ok 32 (fst h) -> bytes_ok 32 (snd h) -> Forall is_byte block ->
+     t0 < 2 ^ 64 -> t1 < 2 ^ 64 ->
+     xm_put_block64 m h block (t0, t1) = h_bytes 8 (Blake.put_block64 (h_words 8 h) block (t0, t1))) /\
+  (forall h, bytes_ok 16 (fst h) -> bytes_ok 16 (snd h) ->
+     xm_finalize32 m h = Blake.compressor_finalize 4 (h_words 4 h)) /\
+  (forall h, bytes_ok 32 (fst h) -> bytes_ok 32 (snd h) ->
+     xm_finalize64 m h = Blake.compressor_finalize 8 (h_words 8 h)).
+Proof.
+  intros m X. exact (conj (put_block32_is_model m X) (conj (put_block64_is_model m X)
+                    (conj (finalize32_is_model m X) (finalize64_is_model m X)))).
+Qed.
+
+(** the six real back ends (intrinsic-level / portable models), per build profile *)
+Theorem C03_real_xinst_is :
+  forall p,
+    real_xinst p Generic = MachineFullGeneric.generic_xm p /\
+    real_xinst p SSE2 = MachineFullSse.sse_xm false false /\
+    real_xinst p SSSE3 = MachineFullSse.sse_xm true false /\
+    real_xinst p SSE41 = MachineFullSse.sse_xm true true /\
+    real_xinst p AVX = MachineFullSse.sse_xm true true /\
+    real_xinst p AVX2 = MachineFullAvx2.avx2_xm.
+Proof. exact real_xinst_cases. Qed.
+
+Theorem C03_real_xinst_extends : forall p b, xm_base (real_xinst p b) = real_inst p b.
+Proof. exact real_xinst_base. Qed.
+
+Theorem C03_real_xinst_refines : forall p b, xmachine_refines (real_xinst p b).
+Proof. exact real_xinst_refines. Qed.
+
+(** hence, without hypothesis: the whole block functions on every real back end are the
+    executable models (= the specifications by C01 / C06 / C04) *)
+Theorem C03_real_blocks_are_model :
+  forall p,
+  (forall b1 b2 k s, cstore_ok s ->
+     x_refill_narrow (real_xinst p b1) (real_xinst p b2) k s =
+     (fst (ChaChaGuts.refill (cc_of s) k), store_of (snd (ChaChaGuts.refill (cc_of s) k)))) /\
+  (forall b k s, cstore_ok s ->
+     xm_refill_wide (real_xinst p b) k s =
+     (fst (ChaChaGuts.refill_wide (cc_of s) k), store_of (snd (ChaChaGuts.refill_wide (cc_of s) k)))) /\
+  (forall b state data, bytes_ok 128 state -> bytes_ok 64 data ->
+     xm_f8 (real_xinst p b) e8_sched state data = JH.m_f8 state data) /\
+  (forall b h block t0 t1, bytes_ok 16 (fst h) -> bytes_ok 16 (snd h) -> Forall is_byte block ->
+     t0 < 2 ^ 32 -> t1 < 2 ^ 32 ->
+     xm_put_block32 (real_xinst p b) h block (t0, t1) = h_bytes 4 (Blake.put_block32 (h_words 4 h) block (t0, t1))) /\
+  (forall b h block t0 t1, bytes_ok 32 (fst h) -> bytes_ok 32 (snd h) -> Forall is_byte block ->
+     t0 < 2 ^ 64 -> t1 < 2 ^ 64 ->
+     xm_put_block64 (real_xinst p b) h block (t0, t1) = h_bytes 8 (Blake.put_block64 (h_words 8 h) block (t0, t1))) /\
+  (forall b h, bytes_ok 16 (fst h) -> bytes_ok 16 (snd h) ->
+     xm_finalize32 (real_xinst p b) h = Blake.compressor_finalize 4 (h_words 4 h)) /\
+  (forall b h, bytes_ok 32 (fst h) -> bytes_ok 32 (snd h) ->
+     xm_finalize64 (real_xinst p b) h = Blake.compressor_finalize 8 (h_words 8 h)).
+Proof.
+  intros p.
+  exact (conj (real_refill_narrow_is_model p) (conj (real_refill_wide_is_model p) (conj (real_f8_is_model p)
+        (conj (real_put_block32_is_model p) (conj (real_put_block64_is_model p)
+        (conj (real_finalize32_is_model p) (real_finalize64_is_model p))))))).
+Qed.
+
+(** and composed with the selection: in every configuration (profile, no_simd, std, detected CPU
+    features with SSE2, target features) each dispatched block function returns ([Some], not the
+    [unimplemented!()] arm) the model's value — so any two configurations agree *)
+Theorem C03_real_blocks_agree :
+  forall c, f_sse2 (xcpu c) = true ->
+  (forall k s, cstore_ok s ->
+     refill_narrow_on k c s =
+     Some (fst (ChaChaGuts.refill (cc_of s) k), store_of (snd (ChaChaGuts.refill (cc_of s) k)))) /\
+  (forall k s, cstore_ok s ->
+     on_x MDispatch (fun m => xm_refill_wide m k) c s =
+     Some (fst (ChaChaGuts.refill_wide (cc_of s) k), store_of (snd (ChaChaGuts.refill_wide (cc_of s) k)))) /\
+  (forall state data, bytes_ok 128 state -> bytes_ok 64 data ->
+     on_x MDispatch (fun m => xm_f8 m e8_sched state) c data = Some (JH.m_f8 state data)) /\
+  (forall h block t0 t1,
+     bytes_ok 16 (fst h) -> bytes_ok 16 (snd h) -> Forall is_byte block -> t0 < 2 ^ 32 -> t1 < 2 ^ 32 ->
+     on_x MDispatch (fun m h => xm_put_block32 m h block (t0, t1)) c h =
+     Some (h_bytes 4 (Blake.put_block32 (h_words 4 h) block (t0, t1)))) /\
+  (forall h block t0 t1,
+     bytes_ok 32 (fst h) -> bytes_ok 32 (snd h) -> Forall is_byte block -> t0 < 2 ^ 64 -> t1 < 2 ^ 64 ->
+     on_x MDispatch (fun m h => xm_put_block64 m h block (t0, t1)) c h =
+     Some (h_bytes 8 (Blake.put_block64 (h_words 8 h) block (t0, t1)))) /\
+  (forall h, bytes_ok 16 (fst h) -> bytes_ok 16 (snd h) ->
+     on_x MLight256 xm_finalize32 c h = Some (Blake.compressor_finalize 4 (h_words 4 h))) /\
+  (forall h, bytes_ok 32 (fst h) -> bytes_ok 32 (snd h) ->
+     on_x MLight256 xm_finalize64 c h = Some (Blake.compressor_finalize 8 (h_words 8 h))).
+Proof. exact real_blocks_agree. Qed.
+
+(** non-vacuity: a u32x4 whose [extract] numbers the lanes from the other end is not a refinement
+    and changes the counter update *)
+Theorem C03_bad_extract_rejected :
+  ~ xmachine_refines bad_xm /\
+  snd (x_refill_narrow lane_xm bad_xm 0 sample_store) <> snd (x_refill_narrow lane_xm lane_xm 0 sample_store).
+Proof. exact bad_xm_rejected. Qed.
+
+Print Assumptions C03_lane_xm_refines.
+Print Assumptions C03_chacha_refill_narrow_machine_indep.
+Print Assumptions C03_chacha_refill_wide_machine_indep.
+Print Assumptions C03_chacha_refill_lane_is_model.
+Print Assumptions C03_chacha_init_x_seek_is_model.
+Print Assumptions C03_jh_f8_machine_indep.
+Print Assumptions C03_jh_f8_is_model.
+Print Assumptions C03_blake_put_block_machine_indep.
+Print Assumptions C03_blake_put_block_is_model.
+Print Assumptions C03_real_xinst_is.
+Print Assumptions C03_real_xinst_extends.
+Print Assumptions C03_real_xinst_refines.
+Print Assumptions C03_real_blocks_are_model.
+Print Assumptions C03_real_blocks_agree.
+Print Assumptions C03_bad_extract_rejected.
